@@ -274,6 +274,37 @@ def _bt_chunk(chunk):
     return len(chunk), nt, fails
 
 
+def _btsub_chunk(chunk):
+    """the same rule inside a SUBPROJECT: buildtype and debug both given by one of the subproject's sources (its own default_options,
+    subproject(default_options:), the parent's `sub:` default_options, a machine file's `sub:` section, `-Dsub:...`), either order"""
+    from mesonbuild import options as O
+    K = O.OptionKey
+    fails, nt = [], 0
+    for src, bt, dbg, order in chunk:
+        st = O.OptionStore(False)
+        st.add_system_option('prefix', O.UserStringOption('prefix', 'd', '/usr/local'))
+        for k in ('buildtype', 'debug', 'optimization'):
+            st.add_system_option(k, copy.deepcopy(O.BUILTIN_CORE_OPTIONS[K(k)]))
+        sub = src in ('parent', 'mf', 'cmd')
+        items = [(K('buildtype', 'sub' if sub else None), bt), (K('debug', 'sub' if sub else None), dbg)]
+        if order == 'rev' and src != 'cmd':
+            items.reverse()
+        d = dict(items)
+        try:
+            st.initialize_from_top_level_project_call(d if src == 'parent' else {}, d if src == 'cmd' else {}, d if src == 'mf' else {})
+            st.initialize_from_subproject_call('sub', d if src == 'call' else {}, d if src == 'own' else {}, d if src == 'cmd' else {}, d if src == 'mf' else {})
+        except Exception as ex:
+            fails.append({'case': {'source': src, 'buildtype': bt, 'debug': dbg, 'order': order}, 'stage': 'buildtype-sub', 'detail': f'{type(ex).__name__}: {ex}'})
+            continue
+        got = st.get_value_for(K('debug', 'sub'))
+        top = st.get_value_for(K('debug'))
+        nt += 1
+        if got != (dbg == 'true') or top is not True:
+            fails.append({'case': {'source': src, 'buildtype': bt, 'debug': dbg, 'order': order}, 'stage': 'buildtype-sub',
+                          'detail': f'the subproject is given buildtype={bt} and debug={dbg} by one source ({src}, order {order}): its debug is {got} (given explicitly: it stands), the top-level debug is {top} (declared default True: untouched)'})
+    return len(chunk), nt, fails
+
+
 def _valid_chunk(chunk):
     """an invalid value is rejected, a stored value always satisfies type/choices/range"""
     from mesonbuild import options as O
@@ -470,6 +501,11 @@ def run(REG, tier, seed, jobs):
              for o in ('fwd', 'rev')]
     ev, nt, fails = pmap(_bt_chunk, chunked(iter(cases), 40), jobs)
     parts.append({'name': 'C07/bounded/buildtype-sets-debug-unless-explicit', 'function': 'OptionStore.set_option (buildtype expansion)', 'bound': f'{len(cases)} cases: source of buildtype x value x source of debug x value x textual order inside one source',
+                  'evaluations': ev, 'distinct_nontrivial': nt, 'rule': 'every case is distinct', 'exhaustive': True, 'failures': fails})
+    scases = [(src, bt, d, o) for src in ('own', 'call', 'parent', 'mf', 'cmd') for bt in bts for d in ('true', 'false') for o in ('fwd', 'rev')]
+    ev, nt, fails = pmap(_btsub_chunk, chunked(iter(scases), 20), jobs)
+    parts.append({'name': 'C07/bounded/buildtype-sets-debug-unless-explicit-in-a-subproject', 'function': 'OptionStore.initialize_from_subproject_call / set_option (buildtype expansion into per-subproject overrides)',
+                  'bound': f'{len(scases)} cases: one of the five sources of a subproject gives it buildtype and debug x 5 buildtypes x 2 values x textual order',
                   'evaluations': ev, 'distinct_nontrivial': nt, 'rule': 'every case is distinct', 'exhaustive': True, 'failures': fails})
     values = ['1', '2', '40', '41', '-3', 'abc', '', 'true', 'True', 'FALSE', 'enabled', 'auto', 'v3', 'd', 0, 5, 41, True, False, 3.5, None, ['a'], 'v9']
     cases = [(k, v) for k in kinds for v in values]
